@@ -87,7 +87,7 @@ TYPES = {'int': int, 'str': str, 'list': list, 'dict': dict, 'tuple': tuple, 'fl
 
 
 class Builder:
-    def __init__(self, G, k, shared=None, on_nested=None):
+    def __init__(self, G, k, shared=None, on_nested=None, eager_render=True):
         self.G, self.k = G, k
         self.nodes = {}
         self.keep = []
@@ -96,6 +96,7 @@ class Builder:
         self.shared_recipes = shared or []
         self.shared_objs = {}
         self.on_nested = on_nested
+        self.eager_render = eager_render    # render (str()) an inner error as soon as it is caught?
         self._sid = 0
         self.custom_classes = {}
 
@@ -272,7 +273,8 @@ class Builder:
                 res = ('exc', e)
             finally:
                 self.__dict__[depth_key] -= 1
-            k.event(probe.site + '.inner', 'nested-outcome', canon.outcome(res, self.idmap))
+            k.event(probe.site + '.inner', 'nested-outcome',
+                    canon.outcome(res, self.idmap, with_text=self.eager_render))
             if self.on_nested:
                 self.on_nested(d, res)
             if res[0] == 'ok' and d.get('handle') != 'passthrough':
